@@ -88,22 +88,12 @@ func (r Wrapper) ValidateDPoPProof(_ context.Context, request ValidateDPoPProofR
 		return ValidateDPoPProof200JSONResponse{Reason: &reason}, nil
 	}
 	// check if the jti is already used, if not add it to the store for the duration of the access token lifetime
-	// the check and the registration are separate store operations: serialize them,
-	// otherwise concurrent requests with the same proof can all find the jti unused.
-	dpopJTIMutex.Lock()
-	defer dpopJTIMutex.Unlock()
-	var target struct{}
-	if err := r.useNonceOnceStore().Get(dpopToken.Token.JwtID(), &target); err != nil {
-		if !errors.Is(err, storage.ErrNotFound) {
-			log.Logger().WithError(err).Error("ValidateDPoPProof: failed to retrieve jti usage state")
-			return nil, err
-		}
-		if err := r.useNonceOnceStore().Put(dpopToken.Token.JwtID(), target); err != nil {
-			log.Logger().WithError(err).Error("ValidateDPoPProof: failed to store jti usage state")
-			return nil, err
-		}
-	} else {
-		// jti already used
+	used, err := r.useDPoPProofID(dpopToken.Token.JwtID())
+	if err != nil {
+		log.Logger().WithError(err).Error("ValidateDPoPProof: failed to retrieve or store jti usage state")
+		return nil, err
+	}
+	if used {
 		reason := "jti already used"
 		return ValidateDPoPProof200JSONResponse{Reason: &reason}, nil
 	}
@@ -113,6 +103,43 @@ func (r Wrapper) ValidateDPoPProof(_ context.Context, request ValidateDPoPProofR
 
 // dpopJTIMutex makes checking and registering the jti of a DPoP proof atomic (on this node).
 var dpopJTIMutex sync.Mutex
+
+// useDPoPProofID registers the jti of a DPoP proof and reports whether it was registered before.
+// The check and the registration are separate store operations: they are serialized,
+// otherwise concurrent requests with the same proof can all find the jti unused.
+func (r Wrapper) useDPoPProofID(jti string) (bool, error) {
+	dpopJTIMutex.Lock()
+	defer dpopJTIMutex.Unlock()
+	var target struct{}
+	err := r.useNonceOnceStore().Get(jti, &target)
+	if err == nil {
+		return true, nil
+	}
+	if !errors.Is(err, storage.ErrNotFound) {
+		return false, err
+	}
+	return false, r.useNonceOnceStore().Put(jti, target)
+}
+
+// dpopFromTokenRequest parses the optional DPoP header of a token request.
+// A proof is honoured once: its jti is registered, and a proof whose jti was presented before is refused.
+func (r Wrapper) dpopFromTokenRequest(httpRequest http.Request) (*dpop.DPoP, error) {
+	dpopProof, err := dpopFromRequest(httpRequest)
+	if err != nil || dpopProof == nil {
+		return nil, err
+	}
+	used, err := r.useDPoPProofID(dpopProof.Token.JwtID())
+	if err != nil {
+		return nil, err
+	}
+	if used {
+		return nil, oauth.OAuth2Error{
+			Code:        oauth.InvalidDPopProof,
+			Description: "DPoP proof was used before",
+		}
+	}
+	return dpopProof, nil
+}
 
 func dpopFromRequest(httpRequest http.Request) (*dpop.DPoP, error) {
 	dpopHeader := httpRequest.Header.Get("DPoP")
